@@ -13,6 +13,9 @@ claimed = {
  "C02": dict(level="exploration", technique="property-based testing (rapid): generated Unicode strings x chunkings x meta settings through a real pty session; identity oracle",
    text="Generated-input search: thousands of generated printable Unicode strings are typed byte-for-byte into a real Readline call on a pseudo-terminal under generated read chunkings and meta settings; the returned line must equal the typed text. Exploration is the right level: the domain (all strings x chunkings x settings) is unbounded and the oracle is exact (identity).",
    note=RIG_NOTE + " Preconditions from the documentation (autopairs/autocomplete/autosuggest off, no user binds).", ref="DESIGN.md §3 C02"),
+ "C05": dict(level="exploration", technique="property-based testing (rapid), differential / metamorphic: the same generated key bytes delivered under several read schedules (per token, random byte cuts, single paste, bytes glued to a cursor-position report) must give the same outcome",
+   text="Schedules are owned by the harness: the gate delivers exactly the prescribed chunk to each read of the library and the emulated terminal can attach bytes to its cursor-position reports, so 'how bytes are split across reads' and 'arriving while the editor queries the cursor' are generated, shrinkable inputs; the oracle is equality of (line, error) or of the final editor state across schedules. Exploration over scripts x schedules.",
+   note=RIG_NOTE + " ESC lone/prefix marking per the statement; valid UTF-8 only; two known findings excluded by construction and reported from regress cases.", ref="DESIGN.md §3 C05"),
  "C10": dict(level="fault_enumeration", technique="property-based testing (rapid) of generated histories + exhaustive enumeration of every truncation offset of the last append (crash points); list-model oracle; native fuzzing of file contents in the thorough tier",
    text="For each generated history every byte offset of the last record is used as a crash point (exhaustively for records up to 600 bytes, first/last 96 bytes plus spread offsets beyond): reopen must succeed, keep the completed entries in order, and a later append must be durable. The histories themselves are sampled, the crash points per history are enumerated: fault enumeration.",
    note="Models a process death as a prefix of the single O_APPEND write; no claims about kernel or disk failure. API-only (NewHistoryFromFile, Write, Len, GetLine).", ref="DESIGN.md §3 C10"),
